@@ -382,6 +382,10 @@ class SpecEnv(object):
         P["now"] = p_now
         P["num_of"] = lambda ctx, v: SReal(z3.If(Val.is_VInt(to_val(v)), z3.ToReal(Val.vi(to_val(v))), f64_real(Val.vf(to_val(v)))))
         P["isnum"] = lambda ctx, v: b2v(z3.Or(Val.is_VInt(to_val(v)), Val.is_VFloat(to_val(v)))) if isinstance(v, (SVal,)) or v is None else ops.is_reallike(v)
+        def p_deleted(ctx, o, name):
+            from .libmodels import DELETED
+            return ctx.engine.heap_get(ctx.st, o, name) is DELETED
+        P["is_deleted"] = p_deleted
         P["is_heap_obj"] = lambda ctx, v: isinstance(v, ops.HeapRef)
         sent_part = U("sent_part", Bytes, Bytes, Bytes)
         has_attr = U("has_attr", Val, Bytes, Bool)
